@@ -468,3 +468,36 @@ def run(prog: Program, chk: Check):
         raise AnalysisError(f"anchor vanished: module-level tables of the compile path (found {ntab})")
     if not G.instances:
         G.ok(f"{PAR}|no-global-writes", "", f"{ntab} module-level table(s) of the parser / back ends are only read")
+
+    # ---- R the root and the files are canonicalised the same way ---------------------------------------------------------------------
+    # trim_root() expresses each definition's source relative to root_path; parse_file resolves (symlink- and ..-free) every file
+    # it opens.  If the root is only made absolute, a symlink in the path given to the compiler shows up as ../../real/dir/file in
+    # type_source: the same closure compiled through two spellings of its location gives different bytes.
+    Rr = chk.rule("C16-R", "root_path is canonicalised exactly like the paths of the files that are parsed (resolve())", 2,
+                  "a root that keeps a symlink while the files are resolved makes the emitted source paths depend on how the closure was named")
+    pcls = prog.cls(PAR, "Parser")
+    pf = pcls.methods.get("parse_file")
+    canon = lambda v: "resolve" if any(isinstance(c, ast.Call) and isinstance(c.func, ast.Attribute) and c.func.attr == "resolve" for c in ast.walk(v)) else \
+        ("absolute" if any(isinstance(c, ast.Call) and isinstance(c.func, ast.Attribute) and c.func.attr == "absolute" for c in ast.walk(v)) else "as-given")
+    file_canon = set()
+    if pf is not None:
+        inc = [c for c in calls_in(pf.node) if is_method_call(c, "append") and norm(recv_of(c)) == "self.included_files"]
+        for c in inc:
+            v = path_of(c.args[0]) if c.args else None
+            for n in walk_local(pf.node):
+                if isinstance(n, ast.Assign) and v and any(path_of(t) == v for t in n.targets):
+                    file_canon.add(canon(n.value))
+    if not file_canon:
+        raise AnalysisError("anchor vanished: how parse_file canonicalises the path it records")
+    nroot = 0
+    for f in pcls.methods.values():
+        for n in walk_local(f.node):
+            if isinstance(n, ast.Assign) and any(path_of(t) == "self.root_path" for t in n.targets) and f.name not in ("__init__", "clear"):
+                if norm(n.value) in ("pkg_dir",) or isinstance(n.value, ast.Name):
+                    continue  # the package directory, taken from the module's own location
+                nroot += 1
+                Rr.decide({canon(n.value)} == file_canon, fkey(f, n), where(f, n), f"root_path canonicalised with {sorted(file_canon)[0]}(), like the parsed files",
+                          f"{f.qual}: root_path is `{norm(n.value)}` ({canon(n.value)}), the files are recorded {sorted(file_canon)}: with a symlink (or ..) in the given path the sources "
+                          "are emitted relative to a different spelling of the same directory")
+    if nroot < 2:
+        raise AnalysisError(f"anchor vanished: root_path assignments (found {nroot})")
